@@ -190,6 +190,51 @@ fn make_base(g: &GeoDeg, bands: usize, seed: u32) -> (Arc<dyn Grid>, RefGrid) {
     (Arc::new(BaseGrid::gravsoft(text.as_bytes()).expect("generated grid")), gravsoft_reference(g, bands, &fv))
 }
 
+/// `deflection` on lists of FLAT geoids (5 m and 7 m): whichever grid is selected for a point, the slope of a
+/// flat geoid is zero. A result other than zero (or NaN, not counted) means that the three look-ups behind one
+/// deflection (the point, 1 m north, 1 m east) were served by different grids - or by the null grid
+fn deflection_flat_lists(rep: &Report) {
+    let g1 = GeoDeg { lat_s: 54., lat_n: 58., lon_w: 8., lon_e: 16., dlat: 1., dlon: 1. };
+    let g2 = GeoDeg { lat_s: 56., lat_n: 60., lon_w: 12., lon_e: 20., dlat: 2., dlon: 2. };
+    let flat = |g: &GeoDeg, h: f64| -> Arc<dyn Grid> { Arc::new(BaseGrid::gravsoft(gravsoft_text(g, 1, &move |_, _, _| h, TextLayout::RowPerLine).as_bytes()).expect("generated grid")) };
+    let mut ctx = GridCtx::default();
+    ctx.add_grid("five.geoid", flat(&g1, 5.));
+    ctx.add_grid("seven.geoid", flat(&g2, 7.));
+    // latitudes / longitudes: interior, every rim (grid edge and half-cell margin) and a few metres to either side of each rim
+    let m = 1. / 111_000.; // roughly a metre, in degrees
+    let offsets = [-3. * m, -0.7 * m, -0.3 * m, 0., 0.3 * m, 0.7 * m, 3. * m];
+    let mut lats = vec![55.3, 57.1, 59.2];
+    for r in [54., 58., 53.5, 58.5, 56., 60., 55., 61.] {
+        lats.extend(offsets.iter().map(|o| r + o));
+    }
+    let mut lons = vec![9.4, 13.3, 18.8];
+    for r in [8., 16., 7.5, 16.5, 12., 20., 11., 21.] {
+        lons.extend(offsets.iter().map(|o| r + 2. * o));
+    }
+    for list in ["five.geoid", "five.geoid, seven.geoid", "seven.geoid, five.geoid", "five.geoid, @null", "seven.geoid, five.geoid, @null"] {
+        let def = format!("deflection grids={list}");
+        let Ok(op) = ctx.op(&def) else {
+            rep.violation("grid operator with a list of generated grids cannot be instantiated", json!({"def": def}));
+            continue;
+        };
+        for &lat in &lats {
+            for &lon in &lons {
+                rep.eval(1);
+                let mut d = [Coor4D([lat, lon, 0., 0.])];
+                let n = ctx.apply(op, Fwd, &mut d).unwrap_or(usize::MAX);
+                let zero = d[0][0].abs() < 1e-3 && d[0][1].abs() < 1e-3; // arcsec
+                let failed = n == 0 && d[0][0].is_nan() && d[0][1].is_nan();
+                if !((n == 1 && zero) || failed) {
+                    rep.violation(
+                        "deflection on flat geoids is not zero: the three look-ups behind one deflection are not served by the same grid",
+                        json!({"def": def, "lat_deg": lat, "lon_deg": lon, "count": n, "observed_arcsec": [d[0][0], d[0][1]]}),
+                    );
+                }
+            }
+        }
+    }
+}
+
 /// lists of up to 3 overlapping grids in all orders, with the null grid
 fn grid_lists(rep: &Report) {
     let ga = GeoDeg { lat_s: 54., lat_n: 58., lon_w: 8., lon_e: 16., dlat: 1., dlon: 1. };
@@ -813,6 +858,10 @@ pub fn run(tier: Tier) -> Report {
     }
     grid_lists(&rep);
     match catch(|| deformation_grid_lists(&rep)) {
+        Ok(()) => {}
+        Err(p) => rep.violation(&format!("panic in a grid operator: {}", panic_class(&p)), json!({"panic": p})),
+    }
+    match catch(|| deflection_flat_lists(&rep)) {
         Ok(()) => {}
         Err(p) => rep.violation(&format!("panic in a grid operator: {}", panic_class(&p)), json!({"panic": p})),
     }
